@@ -698,7 +698,9 @@ pub struct Mailbox {
     /// Queue ALL remaining scripted replies as the answer to the next request (several messages for
     /// one request, e.g. SDO information fragments).
     pub scripted_burst: bool,
-    scripted_last: Option<Vec<u8>>,
+    /// The device keeps putting the last scripted reply into its send mailbox without being asked.
+    pub scripted_endless: bool,
+    pub(crate) scripted_last: Option<Vec<u8>>,
     /// Delivered as the next reply.
     pub pending_emergency: Option<(u16, u8, [u8; 5])>,
     /// `true`: the emergency replaces the reply to the next request. `false`: the emergency is
@@ -732,6 +734,7 @@ impl Mailbox {
             scripted_replies: VecDeque::new(),
             scripted_repeat_last: false,
             scripted_burst: false,
+            scripted_endless: false,
             scripted_last: None,
             pending_emergency: None,
             emergency_replaces_reply: true,
